@@ -657,6 +657,9 @@ def run_list(case):
 
 
 _TMP = "/var/tmp/c08_files_%d" % os.getpid()
+import atexit as _atexit
+import shutil as _shutil
+_atexit.register(lambda: _shutil.rmtree(_TMP, ignore_errors=True))      # the scratch directory of this run does not outlive it
 
 
 _PTYPES = [False, 0]     # payloads of new records handed over as bytes / bytearray in turn (per case)
